@@ -224,9 +224,12 @@ func (c *c15) opSendJoinPseudo() {
 		switch mapFault {
 		case "mapping_unsigned":
 		case "mapping_signed_by_other_server":
-			o := c.third()
-			if o == mapSigner {
-				o = R
+			// any server but the one the mapping's user belongs to
+			o := R
+			for _, sv := range rm.servers {
+				if sv != mapSigner {
+					o = sv
+				}
 			}
 			_ = mp.Sign(o.Name, o.Current().ID, o.Current().Priv)
 		case "mapping_sig_corrupt":
